@@ -390,6 +390,24 @@ theorem opStep_good {F : Facts} (hF : F = Facts.guarded) {t : Nat} {cells : Nat 
     · cases h
       exact stepGood_done _ _ (Frame.refl _ _) (by simp) (by simp) (fun _ => rfl) (fun _ _ _ => rfl)
     · cases h
+  | index l v =>
+    simp only [opStep] at h
+    split at h
+    · cases h
+      exact stepGood_done _ _ (Frame.refl _ _) (by simp) (by simp) (fun _ => rfl) (fun _ _ _ => rfl)
+    · cases h
+  | isEmpty l =>
+    simp only [opStep] at h
+    split at h
+    · cases h
+      exact stepGood_done _ _ (Frame.refl _ _) (by simp) (by simp) (fun _ => rfl) (fun _ _ _ => rfl)
+    · cases h
+  | toVec l =>
+    simp only [opStep] at h
+    split at h
+    · cases h
+      exact stepGood_done _ _ (Frame.refl _ _) (by simp) (by simp) (fun _ => rfl) (fun _ _ _ => rfl)
+    · cases h
   | clone l =>
     simp only [opStep] at h
     cases h
@@ -890,6 +908,24 @@ theorem opStep_owner {F : Facts} (hF : F = Facts.guarded) {t : Nat} {cells : Nat
     split at h
     · cases h; exact ownerOK_same rfl (fun _ => rfl) hn
     · cases h
+  | index l v =>
+    have hn := none_of (by intro l; simp [HoldsOp])
+    simp only [opStep] at h
+    split at h
+    · cases h; exact ownerOK_same rfl (fun _ => rfl) hn
+    · cases h
+  | isEmpty l =>
+    have hn := none_of (by intro l; simp [HoldsOp])
+    simp only [opStep] at h
+    split at h
+    · cases h; exact ownerOK_same rfl (fun _ => rfl) hn
+    · cases h
+  | toVec l =>
+    have hn := none_of (by intro l; simp [HoldsOp])
+    simp only [opStep] at h
+    split at h
+    · cases h; exact ownerOK_same rfl (fun _ => rfl) hn
+    · cases h
   | clone l =>
     have hn := none_of (by intro l; simp [HoldsOp])
     simp only [opStep] at h
@@ -1013,6 +1049,9 @@ def NeedsOp : Op → Nat → Option Nat
   | .contains l _, _ => some l
   | .swap l _ _, _ => some l
   | .len l, _ => some l
+  | .index l _, _ => some l
+  | .isEmpty l, _ => some l
+  | .toVec l, _ => some l
   | .eq a b, 0 => if a = b then none else some (eqFirst Facts.guarded a b)
   | .eq a b, _ => some (eqSecond Facts.guarded a b)
   | .concat a b, 0 => some (min a b)
@@ -1058,6 +1097,9 @@ theorem opStep_enabled {F : Facts} (hF : F = Facts.guarded) {t : Nat} {cells : N
   | contains l v => have := fr l (by simp [NeedsOp]); simp [opStep, this]
   | swap l i j => have := fr l (by simp [NeedsOp]); simp [opStep, this]
   | len l => have := fr l (by simp [NeedsOp]); simp [opStep, this]
+  | index l v => have := fr l (by simp [NeedsOp]); simp [opStep, this]
+  | isEmpty l => have := fr l (by simp [NeedsOp]); simp [opStep, this]
+  | toVec l => have := fr l (by simp [NeedsOp]); simp [opStep, this]
   | clone l => simp [opStep]
   | drop l => simp [opStep]
   | eq a b =>
@@ -1098,7 +1140,8 @@ theorem step_enabled {F : Facts} (hF : F = Facts.guarded) {t : Nat} {s : State} 
 
 /-- the largest list index an operation mentions -/
 def Op.maxId : Op → Nat
-  | .get l _ | .ffiGet l _ | .push l _ | .contains l _ | .swap l _ _ | .len l | .clone l | .drop l => l
+  | .get l _ | .ffiGet l _ | .push l _ | .contains l _ | .swap l _ _ | .len l | .clone l | .drop l
+  | .index l _ | .isEmpty l | .toVec l => l
   | .concat a b | .eq a b => max a b
 
 theorem needs_le_maxId (op : Op) (pc l : Nat) (h : NeedsOp op pc = some l) : l ≤ op.maxId := by
